@@ -87,7 +87,7 @@ CHECKS = {
                          ('core-eager', 1000, 40000), ('core-await', 1000, 40000)],
             'oracles': [O.oracle_c06], 'level': 'exploration'},
     'C08': {'profiles': [('core', 2000, 80000), ('core-cancel', 2000, 80000), ('core-ends', 1500, 60000),
-                         ('core-lease', 1000, 40000), ('core-eager', 1000, 40000)],
+                         ('core-lease', 1000, 40000), ('core-eager', 1000, 40000), ('core-await', 1000, 40000)],
             'oracles': [O.oracle_c08], 'level': 'exploration'},
     'C13': {'profiles': [('core-ids', 5000, 200000), ('core', 1000, 40000), ('id-reuse', 2000, 60000)],
             'oracles': {'core-ids': [O.oracle_c13], 'core': [O.oracle_c13], 'id-reuse': [PH.oracle_c13_reuse]},
